@@ -81,7 +81,10 @@ def _resolvable_names(col, rule="C11.R2"):
     for ev in sx.of_kind("call"):
         if ev.term == S.fcall("repr", S.sattr("_func")):
             cs = sx.conds(ev.nid)
-            if isref in cs or ("uop", "not", isref) in cs:
+            anytest = [c for c in cs for t_ in [c[2] if c[:2] == ("uop", "not") else c]
+                       if S.is_call_of(t_, ("glob", "isinstance")) and t_[2][:1] == (S.sattr("_func"),)]
+            if anytest:
+                # ... a reference of *any* kind (the result of a call, an item of one, ..), not only a location
                 col.add(rule, "CallRef.__repr__#ref-path-when-function-is-a-ref", isref in cs, sx.loc(ev),
                         "repr(self._func) is used when the function is a reference, its __name__ otherwise", str([S.show(c) for c in cs]))
     # BuiltinRef looks the operator itself up in the symbol table (falling back to its __name__)
@@ -91,6 +94,31 @@ def _resolvable_names(col, rule="C11.R2"):
         okb = len(a) == 2 and a[0] == S.sattr("_op") and a[1] == ("attr", S.sattr("_op"), "__name__")
         col.add(rule, "BuiltinRef.__repr__#symbol-looked-up-by-operator", okb, bx.loc(ev),
                 "the symbol table is keyed by the operator object; the fallback is the operator's __name__", S.show(ev.term)[:80])
+
+
+def _owner_by_identity_and_defaults(col, rule="C11.R5"):
+    """which definitions copy_expr_from takes is decided by the *identity* of the container reference at the root of the target
+    (`==` on references compares printed forms and may reach the containers' own element-wise `==`); and both loaders replace
+    existing definitions unless told otherwise (the statement: 'with overwrite=False existing definitions are kept')"""
+    repo = col.repo
+    m = repo.module("tasks")
+    fn = m.functions.get("_check_root_owner")
+    if fn is None:
+        # renamed / dissolved: judged where it went (the iter_expr_tasks_owner obligation names the test it expects)
+        raise AnalysisError("tasks._check_root_owner not found -- cannot decide")
+    cmps = [n for n in ast.walk(fn) if isinstance(n, ast.Compare) and len(n.ops) == 1
+            and any(isinstance(x, ast.Attribute) and x.attr == "_owner" for x in [n.left] + n.comparators)]
+    if not cmps:
+        raise AnalysisError("tasks._check_root_owner: no comparison of an owner found -- cannot decide")
+    bad = [c for c in cmps if not isinstance(c.ops[0], (ast.Is, ast.IsNot))
+           and not any(isinstance(x, ast.Constant) and x.value is None for x in [c.left] + c.comparators)]
+    col.add(rule, "_check_root_owner#owner-compared-by-identity", not bad, m.loc(bad[0] if bad else fn),
+            "the root container of a target is recognised by identity of the reference object", A.src(bad[0]) if bad else "", positive=bool(bad))
+    for meth in ("copy_expr_from", "load"):
+        f = repo.method("Manager", meth)
+        d = A.param_defaults(f).get("overwrite")
+        col.add(rule, f"Manager.{meth}#overwrites-by-default", d is not None and A.is_const(d, True), m.loc(f),
+                "existing definitions of the same targets are replaced unless overwrite=False is given", A.src(d) if d is not None else "no such parameter")
 
 
 def _precedence(col, rule="C11.R3"):
@@ -319,3 +347,5 @@ def check(col: Collector):
         _dump_load(col)
     with col.rule():
         _literal_rendering(col)
+    with col.rule():
+        _owner_by_identity_and_defaults(col)
